@@ -169,9 +169,37 @@ def tie(ctx, model_ok=True):
         res['evaluations'] += 1
         for sig, what in string_roundtrip(s):
             res['failing'].append({'signature': sig, 'what': what, 'case': {'specs': [], 'string': s}})
-    for model, tyspec, v in dumpcase.gen_cases(rnd, n_models, 8, toggles='commuting'):
+    keep_as_is, kept = set(), []
+
+    def directed_index_cases():
+        """A mapping keyed by name, stored as a dict of objects that carry their key as an attribute of a class type: the
+        sweeten / savorize pair index_attribute_to_map / map_attribute_to_index."""
+        from collections import OrderedDict
+        col = {'name': 'Col', 'kind': 'enum', 'members': ['red', 'green'], 'bases': [], 'registered': True}
+        idt = {'name': 'Ident', 'kind': 'str', 'bases': [], 'strbase': 'yatiml.String', 'registered': True}
+        for kt in (('class', 'Ident'), ('class', 'Col'), 'str'):
+            item = {'name': 'Item', 'kind': 'obj', 'bases': [], 'extra': False, 'registered': True,
+                    'params': [{'name': 'name', 'type': kt, 'required': True}, {'name': 'v', 'type': 'int', 'required': True},
+                               {'name': 'w', 'type': ('optional', 'str'), 'required': False, 'default': None}]}
+            hold = {'name': 'Hold', 'kind': 'obj', 'bases': [], 'extra': False, 'registered': True,
+                    'params': [{'name': 'items', 'type': ('dict', 3, 'str', ('class', 'Item')), 'required': True}],
+                    'recognize': [('mapping',)], 'savorize': [('op', ('map2idx', 'items', 'name', 'v'))],
+                    'sweeten': [('op', ('idx2map', 'items', 'name', 'v'))]}
+            m = classgen.Model([col, idt, item, hold])
+
+            def key(x, m=m, kt=kt):
+                return m.cls('Ident')(x) if kt == ('class', 'Ident') else m.cls('Col')[x] if kt == ('class', 'Col') else x
+            for names, full in ((['red', 'green'], False), (['red'], True), (['green', 'red'], True)):
+                items = OrderedDict((x, m.cls('Item')(name=key(x), v=i, **({'w': 'note'} if full and i else {}))) for i, x in enumerate(names))
+                for val, ty in ((m.cls('Hold')(items=items), ('class', 'Hold')), ([m.cls('Hold')(items=items)], ('list', 0, ('class', 'Hold')))):
+                    keep_as_is.add(id(val))     # the pair of transforms is an inverse pair only while every item's name is its key
+                    kept.append(val)
+                    yield m, ty, val
+
+    import itertools
+    for model, tyspec, v in itertools.chain(dumpcase.gen_cases(rnd, n_models, 8, toggles='commuting'), directed_index_cases()):
         classes = model.registered_classes()
-        if rnd.random() < 0.25:
+        if id(v) not in keep_as_is and rnd.random() < 0.25:
             dumpcase.share_in_value(rnd, v)         # the same object twice: dumped as anchor + alias
         if ambiguous(model, tyspec, v):
             skipped += 1
